@@ -831,3 +831,11 @@ Definition no_foreign_match_table (fields : list fieldspec) (labels : list (nat 
   forallb (fun f =>
              forallb (fun l => implb (contains (marker_of f) (label_prefix l)) (own_label f l)) labels
              && forallb (fun o => negb (contains (marker_of f) o)) others) fields.
+
+(* the figure printed as [tok] is the .json quantity q rounded to the printed number of places *)
+Definition json_agrees (q : Q) (tok : string) : bool :=
+  match parse_number tok with
+  | MFlt m e => rounds_to q m e
+  | MInt z => rounds_to q z 0
+  | _ => false
+  end.
